@@ -162,9 +162,9 @@ class FCFG(CFG):
         head_fs = FeatureStructure.from_text(head_conditions, structure_variables)
         head = Variable(head_text)
         variables.add(head)
-        all_body_fs = []
         for sub_body in body_s.split("|"):
             body = []
+            all_body_fs = []
             for body_component in sub_body.split():
                 if is_special_text(body_component):
                     type_component = body_component[1:4]
